@@ -158,6 +158,12 @@ def apply(w, act, r):
                 if r.random() < 0.6 or i == 1:
                     bases[i] = [r.choice("XYZ") for _ in range(nv)]
             bases[1][r.randrange(nv)] = r.choice("XY")      # row 0 all-Z, row 1 never all-Z
+            if all(bool((p == 0).all()) for net in S.networks for p in getattr(S, net).parameters()):
+                # a state whose parameters are ALL exactly zero (built from a zero_weights module and never touched)
+                # has psi = const: an outcome of an X / Y measurement can have probability exactly 0, its
+                # log-likelihood gradient does not exist (0/0).  Not a statement about the library: such a state
+                # is trained on reference-basis data here.
+                bases = [["Z"] * nv for _ in range(N)]
             base, oargs = OPTS[act["opt"]]
             ph = S.rbm_ph if "rbm_ph" in S.networks else None
             aux = getattr(ph, "aux_bias", None) if ph is not None else None
